@@ -23,6 +23,10 @@ import Driver.SqlCons
 import Driver.AutoInc
 import Driver.Dist
 import Driver.Hnsw
+import Driver.Freelist
+import Driver.Sieve
+import Driver.Undo
+import Driver.Mvcc
 
 def main (args : List String) : IO UInt32 := do
   let stdin ← IO.getStdin
@@ -53,4 +57,8 @@ def main (args : List String) : IO UInt32 := do
   | ["record"] => Driver.loop stdin stdout () Driver.Record.step; return 0
   | ["sqlcons"] => Driver.loop stdin stdout ({} : TurVerif.SqlDb.DbState) Driver.SqlCons.step; return 0
   | ["autoinc"] => Driver.loop stdin stdout ({} : TurVerif.AutoInc.St) Driver.AutoInc.step; return 0
+  | ["freelist"] => Driver.loop stdin stdout Driver.Freelist.init Driver.Freelist.step; return 0
+  | ["sieve"] => Driver.loop stdin stdout (none : Option TurVerif.Sieve.Cache) Driver.Sieve.step; return 0
+  | ["mvcc"] => Driver.loop stdin stdout ({} : Driver.Mvcc.S) Driver.Mvcc.step; return 0
+  | ["undo"] => Driver.loop stdin stdout ({} : TurVerif.Undo.Eng) Driver.Undo.step; return 0
   | _ => IO.eprintln "usage: tvmodel <family>"; return 2
